@@ -1942,6 +1942,48 @@ int main(int argc, char** argv) {
                         }
                     }
                 }
+                // every variable assignment: the combined Evaluator (point + interval halves, as the meshers and the C API
+                // use it) is built with OTHER values, evaluates the box, is given the assignment through updateVars and
+                // evaluates the box again: on the same deck the result must be the fresh evaluator's; where it is not,
+                // it must still enclose the point values the same Evaluator computes
+                if (!cx.vars.empty()) {
+                    std::map<Tree::Id, float> other;
+                    int kk = 0;
+                    for (auto& kv : vars) other[kv.first] = kv.second + 2.75f + 1.5f * (kk++);
+                    Evaluator E(deck, other);
+                    (void)E.eval(lo, hi);
+                    E.updateVars(vars);
+                    Interval r2 = E.eval(lo, hi);
+                    std::fesetround(FE_TONEAREST);
+                    float a1 = r.lower(), a2 = r2.lower(), b1 = r.upper(), b2 = r2.upper();
+                    bool same = memcmp(&a1, &a2, 4) == 0 && memcmp(&b1, &b2, 4) == 0 && r.isSafe() == r2.isSafe();
+                    if (!same && r2.isSafe()) {
+                        std::mt19937 rng2(31);
+                        std::uniform_real_distribution<float> d2(0.0f, 1.0f);
+                        float s_lo = 1e-4f * std::max(1.0f, std::fabs(r2.lower())), s_hi = 1e-4f * std::max(1.0f, std::fabs(r2.upper()));
+                        for (int k = 0; k < 24; ++k) {
+                            Eigen::Vector3f p;
+                            for (int a = 0; a < 3; ++a) {
+                                float f = (k < 8) ? (((k >> a) & 1) ? 1.0f : 0.0f) : (k == 8 ? 0.5f : d2(rng2));
+                                p(a) = std::min(std::max(lo(a) + f * (hi(a) - lo(a)), lo(a)), hi(a));
+                            }
+                            float v = E.value(p);
+                            std::fesetround(FE_TONEAREST);
+                            float vf = ar.value(p);          // a fresh evaluator under the same assignment agrees on the point
+                            std::fesetround(FE_TONEAREST);
+                            if (ar.any_inf() || memcmp(&v, &vf, 4) != 0) continue;
+                            ++pts;
+                            Interval rp = iv.eval(p, p);
+                            std::fesetround(FE_TONEAREST);
+                            float w = rp.isSafe() ? rp.upper() - rp.lower() : 0.0f;
+                            if (!std::isfinite(w)) w = 0.0f;
+                            if (std::isnan(v) || v < r2.lower() - s_lo - 4 * w || v > r2.upper() + s_hi + 4 * w) {
+                                if (!bad) info = " after-updateVars iv=[" + hex32(r2.lower()) + "," + hex32(r2.upper()) + "] p=" + hex32(p.x()) + "," + hex32(p.y()) + "," + hex32(p.z()) + " v=" + hex32(v);
+                                ++bad;
+                            }
+                        }
+                    }
+                }
                 out("IS pts=" + std::to_string(pts) + " bad=" + std::to_string(bad) + " illcond=" + std::to_string(illcond) + info);
             }
             else out("ERR unknown command " + c);
